@@ -1157,6 +1157,124 @@ def generate_obj():
     return '\n'.join(lines) + '\n'
 
 
+# ---------------------------------------------------------------- translator to coq/CacheAst.v
+class CacheTranslator:
+    """_evaluate / _reset_evaluation_cache bodies -> CacheAst.kfun (fail-closed)"""
+
+    def __init__(self, where):
+        self.where = where
+
+    def fail(self, what, node=None):
+        raise TieError('cannot translate %s in %s: %s' % (what, self.where, ast.dump(node)[:160] if node is not None else ''))
+
+    def args(self, call_args):
+        out = []
+        for a in call_args:
+            if isinstance(a, ast.Starred):
+                out.append('("*", %s)' % self.expr(a.value))
+            else:
+                out.append('("", %s)' % self.expr(a))
+        return coq_list(out)
+
+    def expr(self, e):
+        if isinstance(e, ast.Name):
+            if e.id == 'point':
+                self.fail('bare use of point', e)
+            return 'KSelf' if e.id == 'self' else '(KName %s)' % coq_str(e.id)
+        if isinstance(e, ast.Constant) and e.value is None:
+            return 'KNone'
+        if isinstance(e, ast.Attribute) and e.attr in ('_inner', '_left', '_right', '_inners', '_value', 'value'):
+            return '(KAttr %s %s)' % (self.expr(e.value), coq_str(e.attr))
+        if isinstance(e, ast.Compare) and len(e.ops) == 1 and isinstance(e.ops[0], (ast.Is, ast.IsNot)) \
+                and isinstance(e.comparators[0], ast.Constant) and e.comparators[0].value is None:
+            return '(%s %s)' % ('KIsNone' if isinstance(e.ops[0], ast.Is) else 'KIsNotNone', self.expr(e.left))
+        if isinstance(e, ast.ListComp) and len(e.generators) == 1 and not e.generators[0].ifs \
+                and isinstance(e.generators[0].target, ast.Name):
+            g = e.generators[0]
+            return '(KComp %s %s %s)' % (self.expr(e.elt), coq_str(g.target.id), self.expr(g.iter))
+        if isinstance(e, ast.Call) and not e.keywords:
+            f = e.func
+            if isinstance(f, ast.Attribute) and f.attr == '_evaluate' and len(e.args) == 1 \
+                    and isinstance(e.args[0], ast.Name) and e.args[0].id == 'point':
+                return '(KEvaluate %s)' % self.expr(f.value)
+            if isinstance(f, ast.Attribute) and f.attr == '_value_formula' and isinstance(f.value, ast.Name) and f.value.id == 'self':
+                return '(KFormula %s)' % self.args(e.args)
+            if isinstance(f, ast.Attribute) and isinstance(f.value, ast.Name) and f.value.id == 'point' \
+                    and f.attr == 'coordinate' and len(e.args) == 1 and isinstance(e.args[0], ast.Attribute) \
+                    and e.args[0].attr == 'name' and isinstance(e.args[0].value, ast.Name) and e.args[0].value.id == 'self':
+                return 'KCoord'
+        self.fail('expression', e)
+
+    def block(self, stmts):
+        out = []
+        for st in stmts:
+            if isinstance(st, ast.Expr) and isinstance(st.value, ast.Constant):
+                continue
+            out.append(self.stmt(st))
+        return coq_list(out)
+
+    def stmt(self, st):
+        if isinstance(st, ast.Return) and st.value is not None:
+            return '(KSReturn %s)' % self.expr(st.value)
+        if isinstance(st, ast.Pass):
+            return 'KSPass'
+        if isinstance(st, ast.If):
+            return '(KSIf %s %s %s)' % (self.expr(st.test), self.block(st.body), self.block(st.orelse))
+        if isinstance(st, ast.Assign) and len(st.targets) == 1:
+            t = st.targets[0]
+            if isinstance(t, ast.Name):
+                return '(KSAssign %s %s)' % (coq_str(t.id), self.expr(st.value))
+            if isinstance(t, ast.Attribute) and t.attr == '_value' and isinstance(t.value, ast.Name) and t.value.id == 'self':
+                return '(KSSetValue %s)' % self.expr(st.value)
+        if isinstance(st, ast.For) and not st.orelse and isinstance(st.target, ast.Name):
+            return '(KSFor %s %s %s)' % (coq_str(st.target.id), self.expr(st.iter), self.block(st.body))
+        if isinstance(st, ast.Expr) and isinstance(st.value, ast.Call) and not st.value.keywords:
+            c = st.value
+            f = c.func
+            if isinstance(f, ast.Attribute) and f.attr == '_verify_domain_constraints' and isinstance(f.value, ast.Name) \
+                    and f.value.id == 'self':
+                return '(KSVerify %s)' % self.args(c.args)
+            if isinstance(f, ast.Attribute) and f.attr == '_reset_evaluation_cache' and not c.args:
+                return '(KSReset %s)' % self.expr(f.value)
+        self.fail('statement', st)
+
+    def function(self, fd):
+        a = fd.args
+        if a.kwonlyargs or a.kwarg or a.posonlyargs or a.vararg or a.defaults:
+            self.fail('parameters', fd)
+        params = [p.arg for p in a.args]
+        expected = {'_evaluate': ['self', 'point'], '_reset_evaluation_cache': ['self']}[fd.name]
+        if params != expected:
+            self.fail('parameter list %s' % params, fd)
+        return '{| k_params := %s; k_body := %s |}' % (coq_list([coq_str(p) for p in params[1:]]), self.block(fd.body))
+
+
+def generate_cache():
+    lines = ['(* GENERATED by harness/tie_extract.py: the current source of every _evaluate and',
+             '   _reset_evaluation_cache method, translated into CacheAst.kfun -- do not edit *)',
+             'From Coq Require Import ZArith List String.', 'From SM Require Import CacheAst.',
+             'Import ListNotations.', 'Open Scope string_scope.', '']
+    owners = []
+    files = [('expression', fn) for fn in EXPR_FILES] + [('base_expression', fn) for fn in BASE_FILES]
+    for sub, fn in files:
+        t = parse(os.path.join(SRC, '_private', sub, fn + '.py'))
+        for node in t.body:
+            if isinstance(node, ast.ClassDef):
+                for m in methods_of(node):
+                    if m.name in ('_evaluate', '_reset_evaluation_cache'):
+                        body = [s for s in m.body if not (isinstance(s, ast.Expr) and isinstance(s.value, ast.Constant))]
+                        if len(body) == 1 and isinstance(body[0], ast.Raise):
+                            continue
+                        tr = CacheTranslator('%s.%s' % (node.name, m.name))
+                        ident = 'gen_cache_%s_%s' % (node.name, 'eval' if m.name == '_evaluate' else 'reset')
+                        lines.append('Definition %s : kfun := %s.' % (ident, tr.function(m)))
+                        owners.append((node.name, m.name))
+    lines.append('')
+    lines.append('Definition gen_cache_owners : list (string * string) := ' +
+                 coq_list(['(%s, %s)' % (coq_str(c), coq_str(m)) for c, m in sorted(owners)]) + '.')
+    return '\n'.join(lines) + '\n'
+
+
 def write_if_changed(path, text):
     old = open(path).read() if os.path.exists(path) else None
     if old != text:
@@ -1200,6 +1318,14 @@ def main():
         print('TIE-TRANSLATE-FAILED: %s' % ex)
     if write_if_changed(os.path.join(coqdir, 'GeneratedObj.v'), qtext):
         print('GeneratedObj.v rewritten')
+    try:
+        ktext = generate_cache()
+    except (TieError, SyntaxError, OSError) as ex:
+        ktext = ('(* GENERATED: the translator FAILED CLOSED: %s *)\n'
+                 'Definition cache_translator_failed : False := I.\n') % str(ex).replace('*)', '* )')
+        print('TIE-TRANSLATE-FAILED: %s' % ex)
+    if write_if_changed(os.path.join(coqdir, 'GeneratedCache.v'), ktext):
+        print('GeneratedCache.v rewritten')
     out = sys.argv[1] if len(sys.argv) > 1 else os.path.join(os.path.dirname(os.path.dirname(os.path.abspath(__file__))), 'coq', 'Generated.v')
     try:
         text = generate()
